@@ -32,7 +32,18 @@ example : calcMR (1/4503599627370496) (1/2) (some 0) [(5, 1/4), (10, 1/2)] 7
     = specMR (some 0) (mapT (thrMap (1/4503599627370496) (1/2) (some 0)) [(5, 1/4), (10, 1/2)]) 7 :=
   C08_marginal_rate_def _ _ _ _ _ (by decide +kernel) (by decide +kernel)
 
-/-- without rounding the requirement follows from the sortedness that `add_bracket` maintains -/
+/-- the requirement always holds for a scale built by `add_bracket` (strictly sorted): scaling by
+`f + ε > 0` and `numpy.round` are monotone — so the definition holds with factor and rounding -/
+theorem C08_marginal_rate_def_sorted (ε f : Rat) (rd : Option Nat) (s : Scale) (b : Rat) (hf : 0 < f + ε)
+    (hs : StrictSorted s) :
+    calcMR ε f rd s b = specMR rd (mapT (thrMap ε f rd) s) b :=
+  C08_marginal_rate_def ε f rd s b hf (mapT_wsorted (thrMap_mono ε f rd hf) hs.wsorted)
+
+example : calcMR (1/4503599627370496) 1 (some 2) [(0, 1/4), (100, 1/2)] (601/4)
+    = specMR (some 2) (mapT (thrMap (1/4503599627370496) 1 (some 2)) [(0, 1/4), (100, 1/2)]) (601/4) :=
+  C08_marginal_rate_def_sorted _ _ _ _ _ (by decide +kernel) (by decide +kernel)
+
+/-- without rounding the transformed thresholds are `(f + ε)·t` -/
 theorem C08_marginal_rate_def_unrounded (ε f : Rat) (s : Scale) (b : Rat) (hf : 0 < f + ε)
     (hs : StrictSorted s) :
     calcMR ε f none s b = specMR none (mapT (fun t => (f + ε) * t) s) b :=
@@ -106,27 +117,33 @@ example : calcMR (1/4503599627370496) 1 none [(50, 1/4), (100, 1/2)] 50 = 0 :=
 
 /-! ## the reported bracket and marginal rate are those of the bracket containing the base -/
 
-/-- the reported index `k` satisfies `τ_k ≤ b < τ_{k+1}` with `τ t = (f + ε)·t`; more precisely
-bracket `i` is at or below the reported one iff its perturbed threshold is `≤ b` -/
-theorem C08_bracket_contains (ε f : Rat) (s : Scale) (b : Rat) (hf : 0 < f + ε) (hs : StrictSorted s) :
-    -1 ≤ bracketIndex ε f none s b ∧ bracketIndex ε f none s b < s.length ∧
+/-- the reported index `k` satisfies `τ_k ≤ b < τ_{k+1}` with `τ t = round((f + ε)·t)` (no
+rounding: `τ t = (f + ε)·t`); more precisely bracket `i` is at or below the reported one iff
+its transformed threshold is `≤ b` -/
+theorem C08_bracket_contains (ε f : Rat) (rd : Option Nat) (s : Scale) (b : Rat) (hf : 0 < f + ε)
+    (hs : StrictSorted s) :
+    -1 ≤ bracketIndex ε f rd s b ∧ bracketIndex ε f rd s b < s.length ∧
     ∀ (i : Nat) (t r : Rat), s[i]? = some (t, r) →
-      ((i : Int) ≤ bracketIndex ε f none s b ↔ (f + ε) * t ≤ b) := by
-  have hl := (mapT_strictSorted (thrMap_strictMono ε f hf) hs).wsorted
-  have hle := cntLe_le_length (mapT (thrMap ε f none) s) b
+      ((i : Int) ≤ bracketIndex ε f rd s b ↔ thrMap ε f rd t ≤ b) := by
+  have hl := mapT_wsorted (thrMap_mono ε f rd hf) hs.wsorted
+  have hle := cntLe_le_length (mapT (thrMap ε f rd) s) b
   rw [mapT_length] at hle
   rw [bracketIndex_eq]
   refine ⟨by omega, by omega, ?_⟩
   intro i t r hi
-  have := cntLe_spec _ hl b i ((f + ε) * t, r) (by rw [mapT_getElem?, hi]; rfl)
+  have := cntLe_spec _ hl b i (thrMap ε f rd t, r) (by rw [mapT_getElem?, hi]; rfl)
   rw [← this]
   omega
+
+example : bracketIndex (1/4503599627370496) (1/2) (some 0) [(5, 1/4), (10, 1/2)] 3 = 0 ∧
+    thrMap (1/4503599627370496) (1/2) (some 0) 5 = 3 := by decide +kernel
 
 /-- explicit form: lower end included, upper end excluded (in the perturbed thresholds) -/
 theorem C08_bracket_contains_bounds (ε f : Rat) (s : Scale) (b : Rat) (hf : 0 < f + ε) (hs : StrictSorted s)
     (k : Nat) (hk : bracketIndex ε f none s b = k) :
     (∀ t r, s[k]? = some (t, r) → (f + ε) * t ≤ b) ∧ (∀ t r, s[k + 1]? = some (t, r) → b < (f + ε) * t) := by
-  obtain ⟨_, _, h⟩ := C08_bracket_contains ε f s b hf hs
+  obtain ⟨_, _, h⟩ := C08_bracket_contains ε f none s b hf hs
+  simp only [thrMap_none] at h
   constructor
   · intro t r e
     exact (h k t r e).mp (by omega)
@@ -136,6 +153,65 @@ theorem C08_bracket_contains_bounds (ε f : Rat) (s : Scale) (b : Rat) (hf : 0 <
     by_contra hc
     have := this.mpr (not_lt.mp hc)
     omega
+
+/-- lattice-gap form (factor 1): when base and thresholds sit on a lattice of step `g` and the
+perturbation `ε·|t|` of every threshold is smaller than `g` (the situation of the code:
+`ε = 2⁻⁵²`), the reported bracket satisfies `t_k ≤ b ≤ t_{k+1}` in the *unperturbed* thresholds -/
+theorem C08_bracket_contains_lattice (ε : Rat) (s : Scale) (b g : Rat) (hε : 0 ≤ ε) (hs : StrictSorted s)
+    (hg : 0 < g) (hlat : ∀ c ∈ s, ∃ n : Int, b - c.1 = n * g) (hgap : ∀ c ∈ s, ε * |c.1| < g)
+    (k : Nat) (hk : bracketIndex ε 1 none s b = k) :
+    (∀ t r, s[k]? = some (t, r) → t ≤ b) ∧ (∀ t r, s[k + 1]? = some (t, r) → b ≤ t) := by
+  obtain ⟨h1, h2⟩ := C08_bracket_contains_bounds ε 1 s b (by linarith) hs k hk
+  constructor
+  · intro t r e
+    have hm : (t, r) ∈ s := List.mem_of_getElem? e
+    obtain ⟨n, hn⟩ := hlat _ hm
+    have hgp := hgap _ hm
+    have hb := h1 t r e
+    simp only at hn hgp
+    have habs : -|t| ≤ t := neg_abs_le t
+    have h3 : -(ε * |t|) ≤ ε * t := by nlinarith [abs_nonneg t]
+    have h4 : (0 : Rat) < (n + 1) * g := by nlinarith
+    have h5 : (0 : Rat) < ((n + 1 : Int) : Rat) := by
+      have := (mul_pos_iff_of_pos_right hg).mp h4
+      push_cast; exact this
+    have h6 : 0 < n + 1 := Int.cast_pos.mp h5
+    have h7 : (0 : Rat) ≤ (n : Rat) := by exact_mod_cast (by omega : 0 ≤ n)
+    nlinarith
+  · intro t r e
+    have hm : (t, r) ∈ s := List.mem_of_getElem? e
+    obtain ⟨n, hn⟩ := hlat _ hm
+    have hgp := hgap _ hm
+    have hb := h2 t r e
+    simp only at hn hgp
+    have habs : t ≤ |t| := le_abs_self t
+    have h3 : ε * t ≤ ε * |t| := by nlinarith [abs_nonneg t]
+    have h4 : (n - 1 : Rat) * g < 0 := by nlinarith
+    have h5 : ((n - 1 : Int) : Rat) < 0 := by
+      have : (n - 1 : Rat) < 0 := by
+        by_contra hc
+        have := mul_nonneg (not_lt.mp hc) hg.le
+        linarith
+      push_cast; exact this
+    have h6 : n - 1 < 0 := Int.cast_lt_zero.mp h5
+    have h7 : (n : Rat) ≤ 0 := by exact_mod_cast (by omega : n ≤ 0)
+    nlinarith
+
+example : (∀ t r, [((0 : Rat), (1/4 : Rat)), (100, 1/2), (300, 1)][0]? = some (t, r) → t ≤ 100) ∧
+    (∀ t r, [((0 : Rat), (1/4 : Rat)), (100, 1/2), (300, 1)][0 + 1]? = some (t, r) → 100 ≤ t) :=
+  C08_bracket_contains_lattice (1/4503599627370496) _ 100 (1/4) (by decide +kernel) (by decide +kernel) (by decide +kernel)
+    (by
+      intro c hc
+      simp at hc
+      rcases hc with e | e | e <;> subst e
+      · exact ⟨400, by norm_num⟩
+      · exact ⟨0, by norm_num⟩
+      · exact ⟨-800, by norm_num⟩)
+    (by
+      intro c hc
+      simp at hc
+      rcases hc with e | e | e <;> subst e <;> norm_num [abs_of_nonneg])
+    0 (by decide +kernel)
 
 /-- `ε = 0`, factor 1: the textbook half-open bracket `t_k ≤ b < t_{k+1}` -/
 theorem C08_bracket_contains_textbook (s : Scale) (b : Rat) (hs : StrictSorted s)
@@ -213,6 +289,8 @@ example : calcMR 0 1 none [(0, 1/4), (100, 1/2)] 180 - calcMR 0 1 none [(0, 1/4)
 theorem C08_marginal_amount_def (s : Scale) (b : Rat) (hs : StrictSorted s) : calcMA s b = sumBelow s b :=
   calcMA_eq_sumBelow s hs b
 
+example : calcMA [(0, 1), (10, 2), (20, 4)] 15 = sumBelow [(0, 1), (10, 2), (20, 4)] 15 :=
+  C08_marginal_amount_def _ 15 (by decide +kernel)
 example : calcMA [(0, 1), (10, 2), (20, 4)] 10 = 1 ∧ calcMA [(0, 1), (10, 2), (20, 4)] 15 = 3 ∧
     sumBelow [(0, 1), (10, 2), (20, 4)] 15 = 3 := by decide +kernel
 
@@ -252,6 +330,11 @@ theorem C08_single_amount_below_first (s : Scale) (b : Rat) :
     rw [List.countP_eq_zero.mpr]
     intro c hc; simpa using h c hc
 
+example : calcSA false [(5, 1), (10, 2)] 4 = 0 ∧ calcSA true [(5, 1), (10, 2)] 5 = 0 :=
+  ⟨(C08_single_amount_below_first _ 4).1 (by decide +kernel), (C08_single_amount_below_first _ 5).2 (by decide +kernel)⟩
+example : calcSA true ([(0, 1)] ++ (10, 2) :: [(20, 4)]) 20 = 2 :=
+  (C08_single_amount_def _ _ _ _ 20 (by decide +kernel)).2 (by decide +kernel)
+    (by intro c hc; simp at hc; subst hc; decide +kernel)
 example : calcSA false ([(0, 1)] ++ (10, 2) :: [(20, 4)]) 10 = 2 :=
   (C08_single_amount_def _ _ _ _ 10 (by decide +kernel)).1 (by decide +kernel)
     (by intro c hc; simp at hc; subst hc; decide +kernel)
@@ -288,6 +371,18 @@ example : build [(100, 1/2), (0, 1/4), (100, 1/8)] = build [(100, 1/8), (100, 1/
 /-- … and it is strictly sorted, whatever was inserted (the hypothesis of the theorems above) -/
 theorem C08_built_sorted (l : List (Rat × Rat)) : StrictSorted (build l) := build_sorted l
 
+example : StrictSorted (build [(100, 1/2), (0, 1/4), (100, 1/8), (-5, 1)]) := C08_built_sorted _
+
+/-- what the built scale is: its thresholds are exactly the inserted ones (each once, by
+`C08_built_sorted`) and the rate / amount of a threshold is the sum of those inserted for it -/
+theorem C08_build_def (l : List (Rat × Rat)) (u : Rat) :
+    hasT (build l) u = hasT l u ∧ rateOf (build l) u = rateOf l u := by
+  rw [build_eq_insAll, hasT_insAll, rateOf_insAll]
+  simp [rateOf]
+
+example : rateOf (build [(100, 1/2), (0, 1/4), (100, 1/8)]) 100 = 5/8 ∧ hasT (build [(100, 1/2), (0, 1/4), (100, 1/8)]) 0 = true := by
+  decide +kernel
+
 /-- `calc` on a vector of bases (one clipped column per bracket, summed over the brackets) gives
 for each base the value of that base alone; same for the indices and rates -/
 theorem C08_vector_pointwise (ε f : Rat) (rd : Option Nat) (s : Scale) (bs : List Rat) :
@@ -306,5 +401,8 @@ theorem C08_vector_pointwise (ε f : Rat) (rd : Option Nat) (s : Scale) (bs : Li
       | cons b bs => rfl
 
 example : calcMRVec 0 1 none [(0, 1/4), (100, 1/2)] [50, 150, -5] = [25/2, 50, 0] := by decide +kernel
+example : bracketIndices (1/4503599627370496) 1 none [(0, 1/4), (100, 1/2)] [50, 100, 150]
+    = .ok ([50, 100, 150].map (bracketIndex (1/4503599627370496) 1 none [(0, 1/4), (100, 1/2)])) :=
+  (C08_vector_pointwise _ _ _ _ _).2 (by simp) (by simp)
 
 end OFCore
